@@ -6,13 +6,15 @@ EXTENDS Hist
 
 NegLo   == -4
 S_Lo    == -6
+S_Schemas == {-1, 0, 1, 2}
 ThrZ0   == {-1000}
-Q_PIdx  == {-1, 0, 1, 2, 4}
+Q_PIdx  == {-1, 0, 1, 3}
 Q_BPIdx == {0, 1, 2, 4}
 Z_Thr   == {-1000, 2, 3, 4}
-B_PIdx  == {-2, -1, 0, 1, 2, 3, 5}
-B_NIdx  == {-1, 0, 1, 2}
-B_Thr   == {-1000, -3, 0, 1, 2, 3, 4, 8}
+B_PIdx  == {-1, 0, 1, 2, 4}
+B_BPIdx == {0, 1, 2, 4}
+B_NIdx  == {1, 2}
+B_Thr   == {-1000, 2, 3}
 S_PIdx  == {-3, -2, -1, 0, 1, 2, 3, 4, 5, 7}
 S_NIdx  == {-2, -1, 0, 1, 2, 3, 4}
 S_Thr   == {-1000, -8, -3, 0, 1, 2, 3, 4, 5, 6, 8, 9, 16}
